@@ -632,6 +632,8 @@ TABLE_SOURCES = {
     'PricesTable': {'price_map': 'prices.build_price_map(entries)', 'entries': 'entries', 'options': 'options'},
     'Table': {'entries': 'entries', 'options': 'options'},
 }
+TYPED_TABLES = {'transactions': 'Transaction', 'prices': 'Price', 'balances': 'Balance', 'notes': 'Note', 'events': 'Event',
+                'documents': 'Document'}
 TABLE_ROWS = {
     # the rows each of these tables presents, as a term over the kept attributes
     'AccountsTable': 'accounts',        # one row (name, open, close) per item of the account map
@@ -679,6 +681,23 @@ def rule_tablesource(P) -> RuleResult:
                          f'`{show(g)[:120] if g is not None else "nothing"}`', loc(init))
         if good:
             res.ok({'table': cname, 'keeps': want})
+    # the typed tables list the directives of the type their name says
+    seen_names = {}
+    for cname, ci in m.classes.items():
+        nm, dt = ci.attrs.get('name'), ci.attrs.get('datatype')
+        if not (isinstance(nm, ast.Constant) and isinstance(nm.value, str)) or dt is None or (isinstance(dt, ast.Constant) and dt.value is None):
+            continue
+        d = ci.module.dotted(dt) or ast.unparse(dt)
+        seen_names[nm.value] = d.split('.')[-1]
+    for tname, dtype in TYPED_TABLES.items():
+        got = seen_names.get(tname)
+        if got is None:
+            res.fail(f'{m.name}:#{tname}', 'tablesource:typed', f'the table #{tname} (directives of type {dtype}) is not defined', '')
+        elif got != dtype:
+            res.fail(f'{m.name}:#{tname}', 'tablesource:typed', f'the table #{tname} lists the directives of type {dtype}; it is declared with '
+                     f'datatype {got}', '')
+        else:
+            res.ok({'table': '#' + tname, 'lists': f'directives of type {dtype}, in ledger order'})
     for cname, attr in TABLE_ROWS.items():
         ci = m.classes[cname]
         it = ci.methods.get('__iter__')
